@@ -22,6 +22,8 @@ OUT = os.environ.get('PYVC_OUT') or ROOT
 
 def setup_paths():
     repo = os.environ.get('VERIF_REPO', '/repo')
+    for k in [k for k in os.environ if k.startswith('XDOCTEST_DEBUG')]:
+        del os.environ[k]       # the proofs are for debug flags off (stated assumption)
     for p in (ROOT, os.path.join(repo, 'src')):
         if p in sys.path:
             sys.path.remove(p)
